@@ -14,6 +14,7 @@ import (
 
 func c02(o Opts) error {
 	res := NewResult("C02")
+	deliveryRes = res
 	// hx.NewRng(s) and hx.NewRng(s+1) are the same stream shifted by one draw;
 	// scramble the seed so that different seeds explore different cases.
 	rng := NewRng(scramble(o.Seed))
@@ -132,6 +133,9 @@ func c02(o Opts) error {
 			checkStream(res, zctx, st, oks, cfg)
 		}
 	}
+
+	// long streams: the lexer's own buffer refills inside characters and tokens
+	c02Long(o, rng, res)
 
 	// ---- 3. JSON subset
 	if err := c02JSON(o, rng, res); err != nil {
